@@ -212,6 +212,25 @@ class C09(SeqProp):
                         if r.random() < 0.5: s.emit("OpObserve", c, gens.some_float(r))
                     elif r.random() < 0.5: s.emit("OpInc", c)
                     if r.random() < 0.15: metrics.append(c)                  # a child registered on its own
+        # siblings: a second collector of the same family (same name, help and label names, other constant-label values),
+        # so that gather merges several collectors' samples into one family before the common labels are applied
+        if r.random() < 0.5:
+            for _ in range(r.randint(1, 2)):
+                nm = mname(r, 1.0); cn = r.sample(CONST_POOL, r.randint(1, 2)) if len(CONST_POOL) >= 2 else ["k"]
+                cn = [c for c in cn if _RE_L.match(c) and c != "le"] or ["k"]
+                kind = r.choice(["C", "G", "CV", "H"])
+                vars_ = [v for v in ["v1"] if v not in cn] if kind == "CV" else []
+                for j in range(r.randint(2, 3)):
+                    o = mkopts(nm, "sib", consts=[(c, "%s%d" % (c, j)) for c in cn])
+                    if kind == "C":
+                        m = s.emit("OpCounter", "NU", o); s.emit("OpInc", m)
+                    elif kind == "G":
+                        m = s.emit("OpGauge", "NI", o); s.emit("OpInc", m)
+                    elif kind == "H":
+                        m = s.emit("OpHistogram", dict(opts=o, buckets=[f64(1.0)])); s.emit("OpObserve", m, f64(0.5))
+                    else:
+                        m = s.emit("OpCounterVec", "NU", o, vars_); c = s.emit("OpWith", m, ["x%d" % j]); s.emit("OpInc", c)
+                    metrics.append(m)
         for reg in regs:
             order = list(metrics); r.shuffle(order)
             for m in order:
@@ -243,6 +262,10 @@ class C09(SeqProp):
 
     # fixed scenarios: the recorded (repaired) defects and a few hand-picked shapes, always run first
     corpus = [
+        # two collectors of one family under a registry with common labels: every sample gets each common label exactly once
+        [("OpRegistry", "p", [("az", "1"), ("region", "2")]), ("OpCounter", "NU", mkopts("x", "h", consts=[("k", "1")])),
+         ("OpCounter", "NU", mkopts("x", "h", consts=[("k", "2")])), ("OpCounter", "NU", mkopts("x", "h", consts=[("k", "3")])),
+         ("OpInc", 1), ("OpInc", 2), ("OpInc", 3), ("OpRegister", 0, 1), ("OpRegister", 0, 2), ("OpRegister", 0, 3), ("OpGather", 0)],
         # the reserved-le defect (repaired): a registry-level common label called le must be refused; before the repair a
         # histogram registered there was gathered with le among its labels (exposed as h_bucket{le="x",le="1"})
         [("OpRegistry", None, [("le", "x")]), ("OpHistogram", dict(opts=mkopts("h", "h"), buckets=[f64(1.0)])), ("OpObserve", 1, f64(0.5)),
